@@ -301,7 +301,7 @@ def gen_case(r, idx, profile):
         elif v < 0.5:
             g.sn(r.choice([pubrec, pubcomp, pubrel])(r.choice([1, g.mid, g.gmid])))
         elif v < 0.6:
-            g.sn(r.choice([suback(0, 1, r.choice([1, g.mid]), 0), unsuback(g.mid), pingresp(), connack(0), willtopicreq(), willmsgreq()]))
+            g.sn(r.choice([suback(0, alias(), r.choice([1, g.mid]), 0), unsuback(g.mid), pingresp(), connack(0), willtopicreq(), willmsgreq()]))
         elif v < 0.7:
             g.sn(bytes(r.choice([[], [1], [1, 5], [2, 0x19], [3, 4, 1], [5, 0x0c, 0, 0, 1]])))
         elif v < 0.8:
